@@ -435,7 +435,16 @@ class Facts:
         from .inline import inline_unknown_helpers
         repl, pairs = inline_unknown_helpers(self)
         v = copy.copy(self)
-        v.fns = [repl.get(f.path, f) for f in self.fns]
+        gone = {callee for _, callee in pairs}
+        # a helper every call of which was inlined is analysed where it is called from; it stays visible only if something still calls it
+        still_called = set()
+        for f in [repl.get(f.path, f) for f in self.fns]:
+            for _, t in f.calls():
+                for tg in self.local_targets(t):
+                    still_called.add(tg)
+        gone = {g for g in gone if g not in still_called}
+        v.fns = [repl.get(f.path, f) for f in self.fns if f.path not in gone and not any(f.path.startswith(g + "::{closure") for g in gone)]
+        v.removed_helpers = sorted(gone)
         v.by_path = {f.path: f for f in v.fns}
         v._cg = None
         v.orig = self
